@@ -92,11 +92,19 @@ def binary_scenario(alpha_kind, use_01, shape, scale_axis=None, bounds_po2=None,
       kw["scale_axis"] = scale_axis
     lo = hi = None
     if bounds_po2:
-      lo, hi = z3.Int("min_e"), z3.Int("max_e")
-      s.vars["min_e"], s.vars["max_e"] = lo, hi
-      ip.assume(lo <= hi)
-      kw["min_po2_exponent"], kw["max_po2_exponent"] = SNum(lo, "int"), SNum(hi, "int")
-      s.hints.extend([lo, hi])
+      # bounds_po2: True/"both", "min" (only min_po2_exponent configured) or "max"
+      if bounds_po2 in (True, "both", "min"):
+        lo = z3.Int("min_e")
+        s.vars["min_e"] = lo
+        kw["min_po2_exponent"] = SNum(lo, "int")
+        s.hints.append(lo)
+      if bounds_po2 in (True, "both", "max"):
+        hi = z3.Int("max_e")
+        s.vars["max_e"] = hi
+        kw["max_po2_exponent"] = SNum(hi, "int")
+        s.hints.append(hi)
+      if lo is not None and hi is not None:
+        ip.assume(lo <= hi)
     if cls == "stochastic_binary":
       kw.pop("use_01")
     q = ip.call(Q.qcls(ip, cls), [], kw)
@@ -149,14 +157,15 @@ def binary_scenario(alpha_kind, use_01, shape, scale_axis=None, bounds_po2=None,
         lg = I.LOG2(ls + EPS)
         ip.assume(L.rnd_axiom_formula(lg))
         raw = I.RND(lg)
-        if bounds_po2:
-          e_spec = z3.If(raw < lo, lo, z3.If(raw > hi, hi, raw))
-        else:
-          e_spec = raw
+        e_spec = raw
+        if lo is not None:
+          e_spec = z3.If(e_spec < lo, lo, e_spec)
+        if hi is not None:
+          e_spec = z3.If(e_spec > hi, hi, e_spec)
         s.hints.extend([raw, e_spec])
         s.claim("scale_po2", sce == P(e_spec))
         if bounds_po2:
-          s.claim("scale_po2_bounds", z3.And(lo <= e_spec, e_spec <= hi))
+          s.claim("scale_po2_bounds", z3.And(lo <= e_spec if lo is not None else True, e_spec <= hi if hi is not None else True))
         s.claim("scale_nonneg", sce > 0)
     return s
   return scenario
@@ -248,8 +257,9 @@ def cases(tier):
                         lo=-40, hi=40))
   out.append(Case(PROP, B, "alpha-auto_scale_axis0_rank2", binary_scenario("auto", False, (3, 4), scale_axis=0),
                   replay_kind="c04", assumptions=ASSUME))
-  out.append(Case(PROP, B, "alpha-auto_po2_bounded_rank2", binary_scenario("auto_po2", False, (3, 4), bounds_po2=True),
-                  replay_kind="c04", assumptions=ASSUME, bounds=bounds))
+  for bk in ("both", "min", "max"):
+    out.append(Case(PROP, B, "alpha-auto_po2_bounded-%s_rank2" % bk, binary_scenario("auto_po2", False, (3, 4), bounds_po2=bk),
+                    replay_kind="c04", assumptions=ASSUME, bounds=bounds))
   for ak in ("none", "const"):
     for tk in ("default", "sym"):
       out.append(Case(PROP, T, "alpha-%s_thr-%s" % (ak, tk), ternary_scenario(ak, tk, (1,)),
